@@ -619,8 +619,8 @@ func cxRunEnc(m *krpc.Msg, wf bool, key string) {
 	cxRunMsg(b, "generated:"+key)
 }
 
-func cxP64(v int64) *int64 { return &v }
-func cxPint(v int) *int    { return &v }
+func cxP64(v int64) *int64    { return &v }
+func cxPint(v int) *int       { return &v }
 func cxPstr(s string) *string { return &s }
 
 func cxGenAny(r *rng, depth int) interface{} {
@@ -684,7 +684,10 @@ var cxMsgChoices = []struct {
 		return true
 	}}},
 	{"Y", cxChoice{5, func(m *krpc.Msg, c int, r *rng) bool { m.Y = []string{"", "q", "r", "e", "xyz"}[c]; return true }}},
-	{"ClientId", cxChoice{3, func(m *krpc.Msg, c int, r *rng) bool { m.ClientId = []string{"", "UT\x01\x02", string(r.bytes(3))}[c]; return true }}},
+	{"ClientId", cxChoice{3, func(m *krpc.Msg, c int, r *rng) bool {
+		m.ClientId = []string{"", "UT\x01\x02", string(r.bytes(3))}[c]
+		return true
+	}}},
 	{"ReadOnly", cxChoice{2, func(m *krpc.Msg, c int, r *rng) bool { m.ReadOnly = c == 1; return true }}},
 	{"IP", cxChoice{8, func(m *krpc.Msg, c int, r *rng) bool {
 		switch c {
@@ -768,7 +771,10 @@ var cxArgChoices = []struct {
 		}
 		return true
 	}}},
-	{"a.Token", cxChoice{3, func(m *krpc.Msg, c int, r *rng) bool { m.A.Token = []string{"", "tok", string(r.bytes(8))}[c]; return true }}},
+	{"a.Token", cxChoice{3, func(m *krpc.Msg, c int, r *rng) bool {
+		m.A.Token = []string{"", "tok", string(r.bytes(8))}[c]
+		return true
+	}}},
 	{"a.Port", cxChoice{6, func(m *krpc.Msg, c int, r *rng) bool {
 		if c > 0 {
 			m.A.Port = cxPint([]int{0, 0, 6881, 65535, -1, 1 << 40}[c])
@@ -1220,7 +1226,7 @@ func codecMalformed(r *rng, scale int, bases [][]byte) {
 		cxRunMsg(b, "mutated")
 	}
 	// deep nesting, in an ignored key, in a.v, in r.v, and of the message itself
-	for _, n := range []int{1, 2, 50, 1000, 5000 * scale} {
+	for _, n := range []int{1, 2, 50, 1000, 5000} { // the model's encoder is quadratic in the nesting depth: not scaled
 		l, e := strings.Repeat("l", n), strings.Repeat("e", n)
 		cxRunMsg([]byte("d1:t2:aa1:xl"+l+e+"e1:y1:qe"), "nesting")
 		cxRunMsg([]byte("d1:t2:aa1:x"+strings.Repeat("d1:a", n)+"de"+e+"1:y1:qe"), "nesting")
